@@ -130,6 +130,29 @@ def decoder_realloc(prog, res):
               "ZSTD_cwksp_free no longer zeroes the descriptor")
 
 
+def legacy_stale_sizes(prog, res):
+    """T3.stale-size for the four legacy streaming decoders (same clause as ZSTD_decompressStream's): a buffer size may not
+    survive the failure of the allocation it describes - on the `buffer == NULL` edge the size is reset before the error
+    return, or a retry on the same context finds the size large enough and copies into NULL."""
+    R = "T3.stale-size"
+    n = 0
+    for f in prog.all_functions():
+        if not f.file.startswith("lib/legacy/") or "decompressContinue" not in f.name or not f.name.startswith("ZBUFF"):
+            continue
+        for buf, size in (("inBuff", "inBuffSize"), ("outBuff", "outBuffSize")):
+            nulls = guards.rel_edges(f, lambda a, _b=buf: strip_casts(a).get("k") == "mem" and strip_casts(a).get("f") == _b, "==",
+                                     lambda b_: const_val(strip_casts(b_)) == 0, truth=True)
+            if not nulls:
+                continue
+            n += 1
+            zero = f.find_roots(lambda x, _s=size: x.get("k") == "asg" and strip_casts(x["lhs"]).get("f") == _s and const_val(x["rhs"]) == 0)
+            rets = [(b, i) for b, i, r in f.returns()]
+            ok = bool(zero) and f.must_pass(via_roots=zero, starts=[(e[1], 0) for e in nulls], targets=rets)
+            res.check(ok, R, "%s:%s" % (f.name, size), f.loc, "%s is reset when the allocation of %s fails" % (size, buf),
+                      "%s keeps %s after the allocation of %s failed: a retry on the same context skips the allocation and writes through NULL" % (f.name, size, buf))
+    res.check(n >= 6, R, "legacy-sites", "lib/legacy", "%d legacy buffer allocations checked" % n, "legacy buffer allocations found: %d" % n)
+
+
 def mt_resize_failure_atomic(prog, res):
     """T5h: ZSTDMT_resize replaces the job table and the three pools by larger ones.  The holders (mtctx fields) must never
     be left empty by a failed replacement: in every function of the resize family the replacement is CREATED before the old
@@ -225,6 +248,7 @@ def run(tier):
     decoder_realloc(prog, res)
     job_buffer_recorded(prog, res)
     mt_resize_failure_atomic(prog, res)
+    legacy_stale_sizes(prog, res)
     # the serial state's tables are freed with serialState->params.customMem: it must be recorded
     # before the tables are (re)allocated, else a failure in between frees with the wrong allocator
     sr = prog.fn("ZSTDMT_serialState_reset")
